@@ -473,6 +473,10 @@ func PropC09(c *vs.Case, f Factory, o RolloutOpts) error {
 		ogStyle = c.Weighted(5, 1, 1, 1)
 	}
 	edits := []int{1}
+	if !o.Small && c.Prob(1, 4) {
+		edits = []int{6} // the first change only adds a key to a revisioned field
+		c.Class("additive-change")
+	}
 	midSyncs := 0
 	if !o.SingleEdit && c.Bool() {
 		second := 1
@@ -480,6 +484,8 @@ func PropC09(c *vs.Case, f Factory, o RolloutOpts) error {
 			second = 3 + c.Int(2)
 		} else if c.Bool() {
 			second = 2
+		} else if !o.Small && c.Prob(1, 3) {
+			second = 6
 		}
 		edits = append(edits, second)
 		midSyncs = c.Int(3)
@@ -550,10 +556,10 @@ func PropC09(c *vs.Case, f Factory, o RolloutOpts) error {
 	}
 	cur = CutPlan{Sync: ct.s, Req: ct.r, Kind: kind}
 	c.Class("cut:%s", kind)
-	c09RevisionCacheLate = kind == "crash" && !o.Small && c.Prob(1, 3)
-	if c09RevisionCacheLate {
-		c.Class("revision-cache-empty-after-restart")
-	}
+	// Since /repo 2bc896d a restarted controller waits for its ControllerRevision cache, so "first sync on
+	// an empty revision cache" is no longer a reachable schedule at this level; the real start-up path is
+	// driven by PropC09RestartBeforeRevisionCache (c09gate.go), which is what found that defect.
+	c09RevisionCacheLate = false
 	if base.Mixed[ct.s] {
 		c.NonTrivial()
 		c.Class("cut-in-sync-with-revision-and-child-writes")
